@@ -131,7 +131,7 @@ def run_property(pid, tier, seed, jobs):
         if plan.harnesses:
             ov.seed_target("kani")
             try:
-                metas, codegen_s = engine.kani_codegen(ov, plan.no_default_features, plan.stubbing)
+                metas, codegen_s = engine.kani_codegen(ov, plan.no_default_features, plan.stubbing, only=[h["name"] for h in plan.harnesses])
                 log("codegen: %d harnesses compiled in %.1fs" % (len(metas), codegen_s))
             except engine.BuildError as e:
                 log("INCONCLUSIVE: harness build failed (a private item the harness names may have changed)\n" + str(e)[-4000:])
